@@ -44,7 +44,7 @@ def states(tier):
     idv = [0, 1, 54321]
     trip = [t for t in itertools.permutations(idv, 3)] + [(x, x, x) for x in idv]
     S = []
-    base = dict(ids=(0, 0, 0, 0, 0, 0), setsid=0, cwd='root', stdin='null', env='three', sudo=0, logname=0, host='-', chain='', ptyowner=0)
+    base = dict(ids=(0, 0, 0, 0, 0, 0), setsid=0, cwd='root', stdin='null', env='three', sudo=0, logname=0, host='-', chain='', ptyowner=0, orphan=0)
     # (b1) ids x gids
     for u in trip:
         for g in trip:
@@ -63,6 +63,10 @@ def states(tier):
     for h in ('-', 'short', 'h' * 64):
         for ch in ('', 'alpha', 'alpha/beta b', 'alpha/(x)/gamma'):
             S.append(dict(base, host=h, chain=ch))
+    # (b5) ancestor chain of length one: orphaned process (parent is init / a subreaper), with and without a renamed chain above
+    for ch in ('', 'alpha', 'alpha/beta b'):
+        for ss in (0, 1):
+            S.append(dict(base, orphan=1, chain=ch, setsid=ss))
     # (a) two-value product of every dimension
     two = dict(ids=[(0, 0, 0, 0, 0, 0), (1, 54321, 0, 54321, 1, 0)], setsid=[0, 1], cwd=['root', 'd4000'], stdin=['pty', 'pipe'], env=['three', 'huge'], sudo=[0, 1], host=['-', 'twohost'], chain=['', 'aa/bb'])
     keys = list(two)
@@ -73,7 +77,7 @@ def states(tier):
 
 def spec_of(st, ds, work):
     parts = ['ids=%s' % ','.join(map(str, st['ids'])), 'setsid=%d' % st['setsid'], 'cwd=' + st['cwd'], 'stdin=' + st['stdin'], 'env=' + st['env'], 'sudo=%d' % st['sudo'], 'logname=%d' % st['logname'],
-             'host=' + st['host'], 'ptyowner=%d' % st['ptyowner'], 'work=' + work, 'ds=' + ','.join(hx(d) for d in ds)]
+             'host=' + st['host'], 'ptyowner=%d' % st['ptyowner'], 'orphan=%d' % st.get('orphan', 0), 'work=' + work, 'ds=' + ','.join(hx(d) for d in ds)]
     if st['chain']:
         parts.append('chain=' + '/'.join(hx(n) for n in st['chain'].split('/')))
     return ';'.join(parts)
@@ -88,6 +92,18 @@ def check_state(st, out, pw, gr, version):
     f = out['f']
     ds = {bytes.fromhex(k).decode('latin-1'): (v['rv'], bytes.fromhex(v['v'])) for k, v in out['ds'].items()}
     bad = []
+    # with the production-sized result buffer (2048) every source must give the same text, cut to 2047 bytes at most
+    for k, v in out['ds'].items():
+        n = bytes.fromhex(k).decode('latin-1')
+        big, small = bytes.fromhex(v['v']), bytes.fromhex(v['vs'])
+        if n.startswith(('timestamp', 'datetime')):
+            continue
+        if n == 'env_all' and len(big) > 2047:
+            if not (len(small) <= 2047 and big.startswith(small.rstrip(b'.')[:-0 or None].rstrip(b'.'))):
+                bad.append((n, 'small-buffer value is not a prefix (+...) of the full value'))
+            continue
+        if (v['rv'] < 0) != (v['rvs'] < 0) or (v['rv'] >= 0 and small != big[:2047]):
+            bad.append((n, 'with a 2048-byte result buffer: rv=%d value=%r...(len %d); with a large one: rv=%d (len %d)' % (v['rvs'], small[:30], len(small), v['rv'], len(big))))
 
     def val(n):
         return ds[n][1].decode('latin-1')
@@ -205,7 +221,7 @@ def run(ck):
     samples = []
     for st, (out, r, reports) in zip(S, pmap(one, S)):
         evals += 1
-        tag = 'ids=%s,sid=%d,cwd=%s,stdin=%s,env=%s,sudo=%d,logname=%d,host=%s,chain=%s' % ('/'.join(map(str, st['ids'])), st['setsid'], st['cwd'], st['stdin'], st['env'], st['sudo'], st['logname'], st['host'][:8], st['chain'])
+        tag = 'ids=%s,sid=%d,cwd=%s,stdin=%s,env=%s,sudo=%d,logname=%d,host=%s,chain=%s,orphan=%d' % ('/'.join(map(str, st['ids'])), st['setsid'], st['cwd'], st['stdin'], st['env'], st['sudo'], st['logname'], st['host'][:8], st['chain'], st.get('orphan', 0))
         if out is None or reports:
             ck.violation('C12:abort:%s' % tag, {'state': st, 'rc': r.returncode, 'stderr': r.stderr.decode('latin-1')[-400:], 'sanitizer': reports[:1]})
             continue
@@ -222,7 +238,7 @@ def run(ck):
     fm += ['%' + a + '-%' + b for a in sub for b in sub]
     fm += ['lit', 'a %Y b %% c', '%Y' * 10, '%c' * 5, 'x' * 70 + '%Y', 'x' * 79, 'x' * 80, '%', '%Q', '%E', '%Ey %Oy', '%10Y', '%-d', '%_H', '%^a']
     ds = ['datetime:' + f for f in fm]
-    out, r, reports = one(dict(ids=(0, 0, 0, 0, 0, 0), setsid=0, cwd='root', stdin='null', env='three', sudo=0, logname=0, host='-', chain='', ptyowner=0), ds)
+    out, r, reports = one(dict(ids=(0, 0, 0, 0, 0, 0), setsid=0, cwd='root', stdin='null', env='three', sudo=0, logname=0, host='-', chain='', ptyowner=0, orphan=0), ds)
     if out is None or reports:
         ck.violation('C12:abort:datetime_formats', {'rc': r.returncode, 'stderr': r.stderr.decode('latin-1')[-400:], 'sanitizer': reports[:1]})
     else:
